@@ -6,7 +6,7 @@ SEQ_TRUST = ["translator /verif/tools/gen (Go AST -> Lean, integer leaf code and
              "modelled, not verified: Go runtime, hash table internals (C15), user callbacks/loaders/calculators as script data"]
 SEQ_RULE = ('SEQ scripts generated from VERIF_SEED (profiles listed under coverage.engines.seq.profiles) executed on the real cache and judged against Spec; '
             'corpus of minimised past failures runs first; distinct = distinct transcripts; non-trivial = >= 10 operations and at least one deletion event or loader call')
-ITER_OPS = ('op_all', 'op_keys', 'op_values', 'op_hottest', 'op_coldest')
+ITER_OPS = ('op_all', 'op_keys', 'op_values', 'op_hottest', 'op_coldest', 'op_iteradv')
 
 
 def seq(profiles, quick, thorough, accept):
@@ -30,11 +30,15 @@ PROPS = {
     },
     'C06': {
         'modules': ['OtterVerif.Props.C06'],
-        'engines': [seq(['mix', 'bound', 'expiry', 'deferred'], 320, 10000, lambda f: f['class'] in ('C06', 'events'))],
+        'engines': [seq(['mix', 'bound', 'expiry', 'deferred'], 320, 10000, lambda f: f['class'] in ('C06', 'events')),
+                    # concurrent writers, changing maximum, both handlers logged: every written value reported exactly once by each
+                    {'kind': 'unit', 'name': 'concevents', 'hcmd': 'conc-events', 'dcmd': 'concevents', 'quick': 120, 'thorough': 6000, 'chunk': 10, 'args': []}],
     },
     'C07': {
         'modules': ['OtterVerif.Props.C07'],
-        'engines': [seq(['bound', 'mix', 'expiry'], 300, 10000, lambda f: f['class'] == 'events')],
+        'engines': [seq(['bound', 'mix', 'expiry'], 300, 10000, lambda f: f['class'] == 'events'),
+                    {'kind': 'unit', 'name': 'concevents', 'hcmd': 'conc-events', 'dcmd': 'concevents', 'quick': 120, 'thorough': 6000, 'chunk': 10, 'args': [],
+                     'accept': lambda f: 'C07' in f['msg'] or 'more than once' in f['msg']}],
     },
     'C09': {
         'modules': ['OtterVerif.Props.C10'],
@@ -43,7 +47,10 @@ PROPS = {
     'C10': {
         'modules': ['OtterVerif.Props.C10'],
         'engines': [seq(['load', 'mix'], 300, 10000,
-                        lambda f: f['class'] in ('C10', 'C08') or (f['op'] in ('end', 'call', 'ret') and f['class'] in ('result', 'events')))],
+                        lambda f: f['class'] in ('C10', 'C08') or (f['op'] in ('end', 'call', 'ret') and f['class'] in ('result', 'events'))),
+                    # callers that JOIN another caller's load must see the documented mapping too (CONC-flight)
+                    {'kind': 'unit', 'name': 'concflight', 'hcmd': 'conc-flight', 'dcmd': 'concflight', 'quick': 64, 'thorough': 3000, 'chunk': 8, 'args': [],
+                     'accept': lambda f: 'C10' in f['msg'] or 'caller' in f['msg'] or 'Get returned' in f['msg'] or 'BulkGet returned' in f['msg']}],
     },
     'C11': {
         'modules': ['OtterVerif.Props.C11', 'OtterVerif.Props.C10'],
@@ -65,6 +72,9 @@ PROPS = {
         'modules': ['OtterVerif.Props.C20'],
         'engines': [seq(['mix', 'load', 'bound'], 300, 10000, lambda f: f['class'] == 'C20'),
                     {'kind': 'unit', 'name': 'conclin', 'hcmd': 'conc-lin', 'dcmd': 'conclin', 'quick': 120, 'thorough': 6000, 'chunk': 20, 'args': ['-target', 'cache'],
+                     'accept': lambda f: 'C20' in f['msg']},
+                    # loads recorded = loader invocations, also for callers that only joined a load (CONC-flight)
+                    {'kind': 'unit', 'name': 'concflight', 'hcmd': 'conc-flight', 'dcmd': 'concflight', 'quick': 64, 'thorough': 3000, 'chunk': 8, 'args': [],
                      'accept': lambda f: 'C20' in f['msg']}],
     },
 }
